@@ -4,41 +4,31 @@
 // logs operands and results; for reference / recursive / unique_ptr / shared_ptr / type_iso it logs
 // what went into the wrapper and what its accessors give back.  No expected values here:
 // spec/OrderJudge.tla + spec/StrongTypedef.tla (TLC) are the judge.
-#include <common/vjson.hpp>
-
-#include <fcppt/make_recursive.hpp>
-#include <fcppt/make_ref.hpp>
-#include <fcppt/make_shared_ptr.hpp>
-#include <fcppt/make_strong_typedef.hpp>
-#include <fcppt/make_unique_ptr.hpp>
-#include <fcppt/recursive.hpp>
-#include <fcppt/reference.hpp>
-#include <fcppt/shared_ptr.hpp>
-#include <fcppt/strong_typedef.hpp>
-#include <fcppt/strong_typedef_arithmetic.hpp>
-#include <fcppt/strong_typedef_assignment.hpp>
-#include <fcppt/strong_typedef_bitwise.hpp>
-#include <fcppt/strong_typedef_comparison.hpp>
-#include <fcppt/unique_ptr.hpp>
-#include <fcppt/type_iso/decorate.hpp>
-#include <fcppt/type_iso/enum.hpp>
-#include <fcppt/type_iso/strong_typedef.hpp>
-#include <fcppt/type_iso/undecorate.hpp>
+//
+// Compiled once per SECTION (two harness units, see c17_common.hpp / c17_main.cpp):
+//   -DC17_SECTION_stops  part "stops": the strong_typedef operator records (st_int, st_u32)
+//   -DC17_SECTION_wrap   part "wrap":  the transparent wrappers
+#include "c17_common.hpp"
 
 #include <cstdint>
 #include <string>
 #include <vector>
 
+#ifdef C17_SECTION_stops
+#include <fcppt/make_strong_typedef.hpp>
+#include <fcppt/strong_typedef.hpp>
+#include <fcppt/strong_typedef_arithmetic.hpp>
+#include <fcppt/strong_typedef_assignment.hpp>
+#include <fcppt/strong_typedef_bitwise.hpp>
+#include <fcppt/strong_typedef_comparison.hpp>
+
 namespace
 {
 FCPPT_MAKE_STRONG_TYPEDEF(int, st_int);
 FCPPT_MAKE_STRONG_TYPEDEF(unsigned, st_uint);
-// the other type_iso specialisation (enums) and the nested ones
-enum class color : int { red, green, blue };
-FCPPT_MAKE_STRONG_TYPEDEF(color, st_color);
-FCPPT_MAKE_STRONG_TYPEDEF(st_int, st_st_int);
 
-std::string num(int const v) { return std::to_string(v); }
+// (results are clamped to [-2^30, 2^30]: honest results of operands in [-128,127] are tiny)
+std::string num(int const v) { return std::to_string(c17::cl(v)); }
 // unsigned values as four base-256 limbs, least significant first (TLC integers are 32-bit)
 std::string num(unsigned const v)
 {
@@ -49,7 +39,8 @@ std::string num(unsigned const v)
 template <typename ST, typename U>
 void st_record(char const *f, U const ua, U const ub)
 {
-  vj::begin_call(std::string("{\"f\":\"") + f + "\",\"a\":" + num(ua) + ",\"b\":" + num(ub));
+  if (!c17::take()) return;
+  vj::begin_call(std::string("{\"f\":\"") + f + "\",\"k\":" + std::to_string(c17::K()) + ",\"a\":" + num(ua) + ",\"b\":" + num(ub));
   ST const a(ua);
   ST const b(ub);
   std::string r;
@@ -114,94 +105,16 @@ void st_record(char const *f, U const ua, U const ub)
   r += ",\"get\":[" + val(a) + "," + val(b) + "]}";
   vj::end_call(r);
 }
-
-void wrap_record(char const *kind, int in, int out, int same, int written, int after)
-{
-  vj::J j;
-  j.kv("f", "wrap").kv("kind", kind).kv("in", in).kv("out", out).kv("same", same).kv("written", written).kv("after", after);
-  vj::line(j);
 }
 
-void wrappers()
+C17_PART(stops)
 {
-  for (int v : {0, 1, 2, -7})
-  {
-    int const w = v + 40; // the value stored through the accessor
-    {
-      int obj = v;
-      fcppt::reference<int> const r(fcppt::make_ref(obj));
-      int const out = r.get();
-      int const same = (&r.get() == &obj) ? 1 : 0;
-      r.get() = w;
-      wrap_record("reference", v, out, same, w, obj);
-    }
-    {
-      int const obj = v;
-      fcppt::reference<int const> const r(obj);
-      wrap_record("reference<const>", v, r.get(), (&r.get() == &obj) ? 1 : 0, 0, 0);
-    }
-    {
-      fcppt::recursive<int> r(v);
-      int const out = r.get();
-      r.get() = w;
-      wrap_record("recursive", v, out, -1, w, r.get());
-      fcppt::recursive<int> const copy(r);
-      wrap_record("recursive-copy", w, copy.get(), -1, 0, 0);
-    }
-    {
-      fcppt::unique_ptr<int> p(fcppt::make_unique_ptr<int>(v));
-      int const out = *p;
-      int const same = (p.get_pointer() == &*p) ? 1 : 0;
-      *p = w;
-      wrap_record("unique_ptr", v, out, same, w, *p.get_pointer());
-      int *const before = p.get_pointer();
-      fcppt::unique_ptr<int> q(std::move(p));
-      wrap_record("unique_ptr-moved", w, *q, (q.get_pointer() == before) ? 1 : 0, 0, 0);
-    }
-    {
-      fcppt::shared_ptr<int> const p(fcppt::make_shared_ptr<int>(v));
-      int const out = *p;
-      int const same = (p.get_pointer() == &*p) ? 1 : 0;
-      *p = w;
-      wrap_record("shared_ptr", v, out, same, w, *p.get_pointer());
-      fcppt::shared_ptr<int> const q(p);
-      wrap_record("shared_ptr-copy", w, *q, (q.get_pointer() == p.get_pointer()) ? 1 : 0, 0, 0);
-    }
-    {
-      st_int const s(fcppt::type_iso::decorate<st_int>(v));
-      wrap_record("type_iso::decorate", v, s.get(), -1, 0, 0);
-      wrap_record("type_iso::undecorate", v, fcppt::type_iso::undecorate(st_int(v)), -1, 0, 0);
-      wrap_record("type_iso::roundtrip", v, fcppt::type_iso::undecorate(fcppt::type_iso::decorate<st_int>(v)), -1, 0, 0);
-      if (v >= 0 && v <= 2)
-      {
-        color const c(fcppt::type_iso::decorate<color>(v));
-        wrap_record("type_iso::decorate<enum>", v, static_cast<int>(c), -1, 0, 0);
-        wrap_record("type_iso::undecorate<enum>", v, fcppt::type_iso::undecorate(static_cast<color>(v)), -1, 0, 0);
-        st_color const sc(fcppt::type_iso::decorate<st_color>(v));
-        wrap_record("type_iso::decorate<strong_typedef<enum>>", v, static_cast<int>(sc.get()), -1, 0, 0);
-        wrap_record("type_iso::undecorate<strong_typedef<enum>>", v, fcppt::type_iso::undecorate(st_color(static_cast<color>(v))), -1, 0, 0);
-      }
-      {
-        st_st_int const n(fcppt::type_iso::decorate<st_st_int>(v));
-        wrap_record("type_iso::decorate<strong_typedef<strong_typedef>>", v, n.get().get(), -1, 0, 0);
-        wrap_record("type_iso::undecorate<strong_typedef<strong_typedef>>", v, fcppt::type_iso::undecorate(st_st_int(st_int(v))), -1, 0, 0);
-      }
-      st_int t(v);
-      int const out = t.get();
-      t.get() = w;
-      wrap_record("strong_typedef", v, out, -1, w, t.get());
-    }
-  }
-}
-}
-
-void c17_strong_records(bool const thorough, unsigned long long const seed)
-{
+  (void)extra;
   int const lo = -128;
   int const hi = 127;
   // right operands: all of [-128,127] in the thorough tier; boundaries plus seeded picks otherwise
   std::vector<int> bs;
-  if (thorough)
+  if (thorough != 0)
     for (int b = lo; b <= hi; ++b) bs.push_back(b);
   else
   {
@@ -216,5 +129,288 @@ void c17_strong_records(bool const thorough, unsigned long long const seed)
                                     0x55555555U, 0xFFFFFFFDU, 0xFFFFFFFEU, 0xFFFFFFFFU, 46341U, 92682U, 0x10001U * 3U};
   for (unsigned a : bv)
     for (unsigned b : bv) st_record<st_uint, unsigned>("st_u32", a, b);
+}
+#endif
+
+#ifdef C17_SECTION_wrap
+#include <fcppt/const_pointer_cast.hpp>
+#include <fcppt/make_recursive.hpp>
+#include <fcppt/make_ref.hpp>
+#include <fcppt/make_shared_ptr.hpp>
+#include <fcppt/make_strong_typedef.hpp>
+#include <fcppt/make_unique_ptr.hpp>
+#include <fcppt/recursive.hpp>
+#include <fcppt/reference.hpp>
+#include <fcppt/shared_ptr.hpp>
+#include <fcppt/static_pointer_cast.hpp>
+#include <fcppt/strong_typedef.hpp>
+#include <fcppt/unique_ptr.hpp>
+#include <fcppt/type_iso/decorate.hpp>
+#include <memory>
+#include <utility>
+#include <fcppt/type_iso/enum.hpp>
+#include <fcppt/type_iso/strong_typedef.hpp>
+#include <fcppt/type_iso/undecorate.hpp>
+
+namespace
+{
+FCPPT_MAKE_STRONG_TYPEDEF(int, st_int);
+// the other type_iso specialisation (enums) and the nested ones
+enum class color : int { red, green, blue };
+FCPPT_MAKE_STRONG_TYPEDEF(color, st_color);
+FCPPT_MAKE_STRONG_TYPEDEF(st_int, st_st_int);
+
+// the kind of the observation being made is flushed BEFORE the wrapper is driven, so that a crash
+// inside an accessor leaves a truncated line that names the wrapper
+void wrap_begin(char const *kind, int in)
+{
+  vj::J j;
+  j.kv("f", "wrap").kv("k", static_cast<long long>(c17::K())).kv("kind", kind).kv("in", in);
+  vj::begin_call(j.s);
+}
+void wrap_end(int out, int same, int written, int after)
+{
+  vj::end_call(",\"out\":" + std::to_string(c17::cl(out)) + ",\"same\":" + std::to_string(same) + ",\"written\":" +
+               std::to_string(written) + ",\"after\":" + std::to_string(c17::cl(after)) + "}");
+}
+
+struct boxed
+{
+  int field;
+};
+
+// one take per wrapper observation: W(kind, in) flushes the record prefix, the block drives the wrapper
+// and ends the record with wrap_end(out, same, written, after)
+#define W(KIND, IN) \
+  if (c17::take() && (wrap_begin(KIND, IN), true))
+
+void wrappers()
+{
+  for (int v : {0, 1, 2, -7})
+  {
+    int const w = v + 40; // the value stored through the accessor
+    W("reference", v)
+    {
+      int obj = v;
+      fcppt::reference<int> const r(fcppt::make_ref(obj));
+      int const out = r.get();
+      int const same = (&r.get() == &obj) ? 1 : 0;
+      r.get() = w;
+      wrap_end(out, same, w, obj);
+    }
+    W("reference<const>", v)
+    {
+      int const obj = v;
+      fcppt::reference<int const> const r(obj);
+      wrap_end(r.get(), (&r.get() == &obj) ? 1 : 0, 0, 0);
+    }
+    W("reference-copy", v)
+    {
+      // a copy of a reference and a reseated reference refer to the very same object
+      int obj = v;
+      int other = v + 1;
+      fcppt::reference<int> const r(obj);
+      fcppt::reference<int> c(other);
+      c = r;
+      int const out = c.get();
+      int const same = (&c.get() == &obj) ? 1 : 0;
+      c.get() = w;
+      wrap_end(out, same, w, obj);
+    }
+    W("reference<struct>", v)
+    {
+      boxed obj{v};
+      fcppt::reference<boxed> const r(obj);
+      int const out = r.get().field;
+      int const same = (&r.get() == &obj) ? 1 : 0;
+      r->field = w;
+      wrap_end(out, same, w, obj.field);
+    }
+    W("recursive", v)
+    {
+      fcppt::recursive<int> r(v);
+      int const out = r.get();
+      r.get() = w;
+      wrap_end(out, -1, w, r.get());
+    }
+    W("recursive-const", v)
+    {
+      fcppt::recursive<int> const r(v);
+      wrap_end(r.get(), -1, 0, 0);
+    }
+    W("recursive-copy", w)
+    {
+      fcppt::recursive<int> r(v);
+      r.get() = w;
+      fcppt::recursive<int> const copy(r);
+      wrap_end(copy.get(), -1, 0, 0);
+    }
+    W("make_recursive", v)
+    {
+      auto r(fcppt::make_recursive(v));
+      int const out = r.get();
+      r.get() = w;
+      wrap_end(out, -1, w, r.get());
+    }
+    W("unique_ptr", v)
+    {
+      fcppt::unique_ptr<int> p(fcppt::make_unique_ptr<int>(v));
+      int const out = *p;
+      int const same = (p.get_pointer() == &*p) ? 1 : 0;
+      *p = w;
+      wrap_end(out, same, w, *p.get_pointer());
+    }
+    W("unique_ptr-moved", w)
+    {
+      fcppt::unique_ptr<int> p(fcppt::make_unique_ptr<int>(w));
+      int *const before = p.get_pointer();
+      fcppt::unique_ptr<int> q(std::move(p));
+      wrap_end(*q, (q.get_pointer() == before) ? 1 : 0, 0, 0);
+    }
+    W("unique_ptr-move-assigned", v)
+    {
+      fcppt::unique_ptr<int> p(fcppt::make_unique_ptr<int>(v));
+      int *const before = p.get_pointer();
+      fcppt::unique_ptr<int> q(fcppt::make_unique_ptr<int>(v + 1));
+      q = std::move(p);
+      int const out = *q;
+      *q = w;
+      wrap_end(out, (q.get_pointer() == before) ? 1 : 0, w, *before);
+    }
+    W("unique_ptr<struct>", v)
+    {
+      fcppt::unique_ptr<boxed> p(fcppt::make_unique_ptr<boxed>(boxed{v}));
+      int const out = p->field;
+      int const same = (&p->field == &(*p).field && p.get_pointer() == &*p) ? 1 : 0;
+      p->field = w;
+      wrap_end(out, same, w, (*p).field);
+    }
+    W("unique_ptr-released", v)
+    {
+      fcppt::unique_ptr<int> p(fcppt::make_unique_ptr<int>(v));
+      int *const before = p.get_pointer();
+      std::unique_ptr<int> const owner(p.release_ownership());
+      wrap_end(*owner, (owner.get() == before) ? 1 : 0, 0, 0);
+    }
+    W("shared_ptr", v)
+    {
+      fcppt::shared_ptr<int> const p(fcppt::make_shared_ptr<int>(v));
+      int const out = *p;
+      int const same = (p.get_pointer() == &*p) ? 1 : 0;
+      *p = w;
+      wrap_end(out, same, w, *p.get_pointer());
+    }
+    W("shared_ptr-copy", w)
+    {
+      fcppt::shared_ptr<int> const p(fcppt::make_shared_ptr<int>(w));
+      fcppt::shared_ptr<int> const q(p);
+      wrap_end(*q, (q.get_pointer() == p.get_pointer()) ? 1 : 0, 0, 0);
+    }
+    W("shared_ptr<struct>", v)
+    {
+      fcppt::shared_ptr<boxed> const p(fcppt::make_shared_ptr<boxed>(boxed{v}));
+      int const out = p->field;
+      int const same = (&p->field == &(*p).field && p.get_pointer() == &*p && p.std_ptr().get() == p.get_pointer()) ? 1 : 0;
+      p->field = w;
+      wrap_end(out, same, w, (*p).field);
+    }
+    W("shared_ptr-aliasing", v)
+    {
+      // shared_ptr(owner, pointer) exposes exactly the pointer it was given
+      fcppt::shared_ptr<boxed> const owner(fcppt::make_shared_ptr<boxed>(boxed{v}));
+      fcppt::shared_ptr<int> const p(owner, &owner->field);
+      int const out = *p;
+      int const same = (p.get_pointer() == &owner->field && &*p == &owner->field) ? 1 : 0;
+      *p = w;
+      wrap_end(out, same, w, owner->field);
+    }
+    W("shared_ptr-aliasing-same-type", v)
+    {
+      // ... also when owner and pointer have the same type (an object the owner does not own)
+      int other = v;
+      fcppt::shared_ptr<int> const owner(fcppt::make_shared_ptr<int>(v + 1));
+      fcppt::shared_ptr<int> const p(owner, &other);
+      int const out = *p;
+      int const same = (p.get_pointer() == &other && &*p == &other) ? 1 : 0;
+      *p = w;
+      wrap_end(out, same, w, other);
+    }
+    W("shared_ptr-static_pointer_cast", v)
+    {
+      fcppt::shared_ptr<boxed> const p(fcppt::make_shared_ptr<boxed>(boxed{v}));
+      fcppt::shared_ptr<boxed const> const c(p);
+      fcppt::shared_ptr<boxed> const back(fcppt::const_pointer_cast<boxed>(c));
+      fcppt::shared_ptr<boxed> const again(fcppt::static_pointer_cast<boxed>(back));
+      int const out = again->field;
+      int const same = (again.get_pointer() == p.get_pointer() && c.get_pointer() == p.get_pointer()) ? 1 : 0;
+      again->field = w;
+      wrap_end(out, same, w, p->field);
+    }
+    W("shared_ptr-from-unique_ptr", v)
+    {
+      fcppt::unique_ptr<int> u(fcppt::make_unique_ptr<int>(v));
+      int *const before = u.get_pointer();
+      fcppt::shared_ptr<int> const p(std::move(u));
+      int const out = *p;
+      *p = w;
+      wrap_end(out, (p.get_pointer() == before) ? 1 : 0, w, *before);
+    }
+    W("type_iso::decorate", v)
+    {
+      st_int const s(fcppt::type_iso::decorate<st_int>(v));
+      wrap_end(s.get(), -1, 0, 0);
+    }
+    W("type_iso::undecorate", v) { wrap_end(fcppt::type_iso::undecorate(st_int(v)), -1, 0, 0); }
+    W("type_iso::roundtrip", v) { wrap_end(fcppt::type_iso::undecorate(fcppt::type_iso::decorate<st_int>(v)), -1, 0, 0); }
+    if (v >= 0 && v <= 2)
+    {
+      W("type_iso::decorate<enum>", v)
+      {
+        color const c(fcppt::type_iso::decorate<color>(v));
+        wrap_end(static_cast<int>(c), -1, 0, 0);
+      }
+      W("type_iso::undecorate<enum>", v) { wrap_end(fcppt::type_iso::undecorate(static_cast<color>(v)), -1, 0, 0); }
+      W("type_iso::decorate<strong_typedef<enum>>", v)
+      {
+        st_color const sc(fcppt::type_iso::decorate<st_color>(v));
+        wrap_end(static_cast<int>(sc.get()), -1, 0, 0);
+      }
+      W("type_iso::undecorate<strong_typedef<enum>>", v)
+      {
+        wrap_end(fcppt::type_iso::undecorate(st_color(static_cast<color>(v))), -1, 0, 0);
+      }
+    }
+    W("type_iso::decorate<strong_typedef<strong_typedef>>", v)
+    {
+      st_st_int const n(fcppt::type_iso::decorate<st_st_int>(v));
+      wrap_end(n.get().get(), -1, 0, 0);
+    }
+    W("type_iso::undecorate<strong_typedef<strong_typedef>>", v)
+    {
+      wrap_end(fcppt::type_iso::undecorate(st_st_int(st_int(v))), -1, 0, 0);
+    }
+    W("strong_typedef", v)
+    {
+      st_int t(v);
+      int const out = t.get();
+      t.get() = w;
+      wrap_end(out, -1, w, t.get());
+    }
+    W("strong_typedef-const", v)
+    {
+      st_int const t(v);
+      wrap_end(t.get(), -1, 0, 0);
+    }
+  }
+}
+#undef W
+}
+
+C17_PART(wrap)
+{
+  (void)seed;
+  (void)thorough;
+  (void)extra;
   wrappers();
 }
+#endif
